@@ -486,12 +486,17 @@ def history_variants(tag, smi, env, pkdir, intra):
             warm_pickle = None
             out['pickle:warm cached_property cache'] = f'EXC:{type(e).__name__}'
         hot = smiles(smi)
-        str(hot), hash(hot)
-        out['pickle:after str() and hash()'] = safe(lambda: len(pickle.dumps(hot)))     # CachedMethods 0.2 keeps a lock in __dict__: TypeError
+        hash(hot)
+        try:            # with CachedMethods 0.2 a lock sits in __dict__ after str()/hash(): TypeError; if it ever pickles, the loaders test it
+            hot_pickle = pickle.dumps(hot)
+            out['pickle:after str() and hash()'] = 'pickled'
+        except Exception as e:
+            hot_pickle = None
+            out['pickle:after str() and hash()'] = f'EXC:{type(e).__name__}'
         os.makedirs(pkdir, exist_ok=True)
         n = len(os.listdir(pkdir))
         with open(os.path.join(pkdir, f'{n}.pkl'), 'wb') as f:
-            pickle.dump({'tag': tag, 'smiles': smi, 'fresh': fresh_pickle, 'warm': warm_pickle}, f)
+            pickle.dump({'tag': tag, 'smiles': smi, 'fresh': fresh_pickle, 'warm': warm_pickle, 'hot': hot_pickle}, f)
     return out
 
 
@@ -509,8 +514,8 @@ def loader(spec_path, pkdir, out_path):
         tag, smi = rec['tag'], rec['smiles']
         fresh = smiles(smi)
         o = {}
-        for kind in ('fresh', 'warm'):
-            if rec[kind] is None:
+        for kind in ('fresh', 'warm', 'hot'):
+            if rec.get(kind) is None:
                 continue
             try:
                 x = pickle.loads(rec[kind])
@@ -745,7 +750,7 @@ def build_spec(ck):
     model_inputs = [t for t, s in mols if t.startswith('hand:')][:44] + [t for t, s in mols if t.startswith('corpus:') and len(s) < 40][: (12 if quick else 120)]
     test_dir = os.path.join(common.REPO, 'test')
     sdf = sorted(os.path.join(test_dir, f) for f in os.listdir(test_dir) if f.endswith('.sdf'))[: (3 if quick else 8)] if os.path.isdir(test_dir) else []
-    history_inputs = [tg for tg, s in mols if tg.startswith('hand:')][::2][: (34 if quick else 80)] + [tg for tg, s in mols if tg.startswith('corpus:')][: (4 if quick else 80)]
+    history_inputs = [tg for tg, s in mols if tg.startswith('hand:')][::3][: (25 if quick else 80)] + [tg for tg, s in mols if tg.startswith('corpus:')][: (3 if quick else 60)]
     return {'repo': common.REPO, 'history_inputs': history_inputs, 'molecules': mols, 'reactions': [('rxn:' + s, s) for s in REACTIONS], 'smarts': SMARTS,
             'fragments': FRAGMENTS, 'reactor': REACTOR, 'model_inputs': model_inputs, 'sdf': sdf, 'sdf_limit': 10 if quick else 40, 'reparse': True}
 
@@ -1187,7 +1192,10 @@ def run(ck):
                         'ring sets, fingerprints, fragment dictionaries, match lists of a SMARTS library incl. order, standardisation family on '
                         'copies, tautomer lists, pack bytes) in N fresh processes under different PYTHONHASHSEED, and inside each process as first '
                         'call / cached call / after flush / copy / re-parsed. A case = one (input, observable); non-trivial = it returned a value')
+    phases = {}
+    t0 = time.time()
     proved = common.standard_proof_steps(ck, translators=['setaudit'])
+    phases['proof steps (incl. waiting for the shared coq lock)'] = round(time.time() - t0, 1)
     audit_report(ck)
     spec = build_spec(ck)
     rng = random.Random(f'{ck.seed}:c19seeds')
@@ -1195,8 +1203,15 @@ def run(ck):
     # thorough: more seeds and a second process under seed 0 to tell `process` from `seed`
     seeds = [0, 1, 2, rng.randrange(3, 2 ** 32)] if ck.tier == 'quick' else \
         [0, 1, 2] + [rng.randrange(3, 2 ** 32) for _ in range(2)] + [0]
+    t0 = time.time()
     results = run_workers(ck, spec, seeds)
+    phases['worker + loader processes'] = round(time.time() - t0, 1)
+    t0 = time.time()
     differential(ck, spec, results)
+    phases['comparison'] = round(time.time() - t0, 1)
+    t0 = time.time()
     tied = correspondence(ck, spec, results)
+    phases['correspondence (coqc on generated cases)'] = round(time.time() - t0, 1)
+    ck.extra['phase_wall_s'] = phases
     ck.extra['proved'] = proved
     ck.extra['tied'] = tied
